@@ -483,6 +483,60 @@ def pid_sample_needed(samples, c0):
     return c0 in "OQYGA" and c0 not in samples
 
 
+def cross_check_extraction(ctx, sdir, jobs):
+    """Keeps extraction and the OCaml driver out of the silent part of the trusted base: a sample of the observation
+    blocks the extracted model printed (.mo files) is recomputed INSIDE Coq with vm_compute from the same start text and
+    actions, and compared there (the Coq file only prints booleans)."""
+    picks = []
+    for j in jobs:
+        if j.get("error") or j["prof"] != "debug":
+            continue
+        g = j["gen"].split(":")[0]
+        if g not in ("play", "rep", "setup", "local", "corpus") or j["shard"] not in (0, 5, 11):
+            continue
+        mo = j["tr"][:-3] + ".mo"
+        items = parse_items(mo)
+        init, acts, taken, ncase = None, [], 0, 0
+        for ctrl, obs, _ in items:
+            c0 = ctrl[0]
+            if c0 == "C":
+                init, acts, taken = None, [], 0
+                ncase += 1
+                if ncase > 3:
+                    break
+            elif c0 == "I":
+                v = ctrl.split()[1:]
+                init = v if v[0] in ("0", "1") else None
+            elif c0 == "A":
+                acts.append(ctrl.split()[1])
+            elif c0 == "O" and init is not None and ctrl.split()[1] == "0" and taken < 2 and len(acts) <= 12 and obs:
+                picks.append((list(init), list(acts), obs))
+                taken += 1
+    picks = picks[:36]
+    if not picks:
+        return {"cases": 0, "ok": False, "error": "no sample"}
+    d = os.path.join(sdir, "cases")
+    os.makedirs(d, exist_ok=True)
+
+    def nl(xs):
+        return "[" + "; ".join(str(int(x, 16)) for x in xs) + "]"
+    out = ["From Coq Require Import NArith List Bool.", "From Arimaa Require Import Types U64 Board Zobrist Engine Notation Display Trace Monitors.",
+           "Import ListNotations.", "Open Scope N_scope.",
+           "Fixpoint blk_eqb (a b : list (N * list N)) : bool := match a, b with [] , [] => true | (t, v) :: a', (t', v') :: b' => (t =? t') && list_eqb v v' && blk_eqb a' b' | _, _ => false end.",
+           "Definition start (i : list N) : state := match i with 0 :: _ => initial | _ :: cps => match parse_state true cps with Ok s => s | _ => initial end | [] => initial end.",
+           "Definition play (s : state) (l : list N) : state := fold_left (fun s a => match dec_action a with Some x => take_action s x | None => s end) l s."]
+    for n, (init, acts, obs) in enumerate(picks):
+        exp = "[" + "; ".join("(%d, %s)" % (ord(l[0]), nl(l.split()[1:])) for l in obs) + "]"
+        out.append("Definition case_%d : bool := blk_eqb (observe true (play (start %s) %s)) %s." % (n, nl(init), nl(acts), exp))
+    out.append("Eval vm_compute in [%s]." % "; ".join("case_%d" % n for n in range(len(picks))))
+    with open(os.path.join(d, "cases.v"), "w") as f:
+        f.write("\n".join(out) + "\n")
+    rc, o, dt = sh("timeout 900 coqc -Q %s/gen Arimaa -Q %s/model Arimaa -Q %s/spec Arimaa -Q %s Cases cases.v 2>&1" % (ctx.coq, ctx.coq, ctx.coq, d), cwd=d, timeout=1000)
+    txt = " ".join(o.split())
+    ok = rc == 0 and "false" not in txt and txt.count("true") >= len(picks)
+    return {"cases": len(picks), "ok": ok, "seconds": round(dt, 1), "output": txt[-300:] if not ok else ""}
+
+
 def run_stage(ctx, binfo):
     key = stage_key(ctx)
     sdir = os.path.join(ctx.cache, "stage", key)
@@ -506,6 +560,11 @@ def run_stage(ctx, binfo):
             with concurrent.futures.ProcessPoolExecutor(max_workers=NPROC) as ex:
                 for r in ex.map(job_run, jobs):
                     out["jobs"].append(r)
+        if not out.get("unavailable"):
+            out["extraction_crosscheck"] = cross_check_extraction(ctx, sdir, out["jobs"])
+            if not out["extraction_crosscheck"]["ok"]:
+                out["unavailable"] = "the extracted OCaml model and the same definitions evaluated inside Coq (vm_compute) disagree: " + \
+                    json.dumps(out["extraction_crosscheck"])[:400]
         out["stage_s"] = round(time.time() - t0, 1)
         with open(summ + ".tmp", "w") as f:
             json.dump(out, f)
@@ -980,6 +1039,7 @@ def check_property(ctx, pid):
             "generator_distribution": dist,
             "special": {k: v for k, v in special.items() if k not in ("mismatch_blocks", "samples", "sendsync_err")},
             "stage_key": stage.get("key"),
+            "extraction_crosscheck": stage.get("extraction_crosscheck"),
         },
         "assumptions": ASSUMPTIONS.get(pid, []) + ["model tied to /repo by differential correspondence (not proof) over the cases counted above",
                                                    "data (masks, tables, enum orders, Unicode classes) regenerated from /repo by tools/gen_coq.py on this run"],
